@@ -1,4 +1,7 @@
 ---- MODULE TmpSS ----
 EXTENDS ScanSelectDomain, TLC
+W == SelWorlds(FALSE)
 ASSUME PrintT(<<"VF", "A", FamilySizes(FALSE)>>)
+ASSUME PrintT(<<"VF", "B", LemmaSpecificWins(W)>>)
+ASSUME PrintT(<<"VF", "C", LemmaOrderFree(W)>>)
 ====
